@@ -5,8 +5,8 @@
  *
  * DEPTH 1: the root (in the inode) is an index node with 1..2 entries, each pointing to a leaf node with
  *          1..2 extents.  DEPTH 0: the root is a leaf with 1..3 extents.
- * Every field symbolic: ei_block and leaf block of every index entry; logical start, physical start, length
- * and the uninitialised flag of every extent; blocks_count; first data block.
+ * Every field symbolic: ei_block and leaf block of every index entry; logical start, physical start and length
+ * of every extent; blocks_count; first data block (the uninitialised flag: all clear / all set, compile-time UN).
  * The extent-handle API (ext2fs_extent_get FIRST_SIB / NEXT_SIB / DOWN / UP / CURRENT, get_info) is a tree
  * model with a cursor that delivers what lib/ext2fs/extent.c delivers for such a tree (for an index entry:
  * e_len = next entry's ei_block, or the file's block count, minus ei_block, in 32 bits);
@@ -26,11 +26,16 @@
 #ifndef DEPTH
 #define DEPTH 1
 #endif
+#ifndef NI_MAX
 #define NI_MAX 2		/* index entries in the root (DEPTH 1) */
+#endif
 #if DEPTH == 1
 #define NE_MAX 2		/* extents per leaf */
 #else
 #define NE_MAX 3
+#endif
+#ifndef UN
+#define UN 0
 #endif
 #define FILE_BLOCKS (1ULL << 31)	/* i_size / block size */
 #define VF_INO 12
@@ -87,16 +92,15 @@ static void vf_fill(struct ext2fs_extent *e)
 				e->e_flags = 0;
 			}
 	} else {
-		/* (the LEAF bit is set outside the selection loops so that it stays a constant for the symbolic execution) */
-		e->e_flags = EXT2_EXTENT_FLAGS_LEAF;
+		/* (the flag word is a compile-time constant so that leaf / index stays decided during symbolic execution: -DUN=1 makes every extent
+		 *  uninitialised; within the bound -- no extent beyond EOF -- the flag does not influence any check) */
+		e->e_flags = EXT2_EXTENT_FLAGS_LEAF | (UN ? EXT2_EXTENT_FLAGS_UNINIT : 0);
 		for (k = 0; k < NI_MAX; k++)
 			for (j = 0; j < NE_MAX; j++)
 				if (k == vf_ri && j == vf_li) {
 					e->e_lblk = IN.lblk[k][j];
 					e->e_pblk = IN.pblk[k][j];
 					e->e_len = IN.len[k][j];
-					if (IN.uninit[k][j])
-						e->e_flags |= EXT2_EXTENT_FLAGS_UNINIT;
 				}
 	}
 }
